@@ -38,7 +38,7 @@ PLANS['C01'] = {
              'and compared with an expected dump derived from the abstract spec and the property statement; the same bytes are also decoded through a reader that is not a slice (a few bytes per call / a small BufReader / '
              'two halves chained) and must give the same DOM; one case in four also compares the other public entry points (to_writer, Deserializer::new().deserialize, from_str, *_default) with the ones they abbreviate; one tree in four contains 2-4 instances of one class sharing a Content-object / Ref / SharedString column; one in five of the others contains 2-5 instances of one class mixing both spellings of a property / the other spelling only / the canonical one only / neither; strings include CR-only, NBSP and U+2028 ones; unknown property names include padded and case-changed variants of reserved and known names; tag lists hold empty tags one time in six (lost on read: listed finding); every fourth shard runs with a logger that accepts and formats trace-level records (log statements of the libraries are only evaluated then); one case in fifty is a SCALE tree '
              '(63-2049, rarely 16384-17000, siblings or instances of one class; chains 300 deep; hundreds of distinct SharedStrings / classes / properties; values past 64 KiB, rarely 5 MiB); '
-             'non-trivial = >=2 written instances and >=1 property; distinct = digest of the expected dump Spelling groups also use legacy ContentId spellings that migrate (Image / MeshId / TextureID ...) next to explicit Content values incl. an empty uri; float pools hold +-999999999 (what rbx_dom_lua writes for math.huge); string pools hold the asset-URL spellings (http://www.roblox.com/asset/?id=N, rbxassetid://N ...).'),
+             'non-trivial = >=2 written instances and >=1 property; distinct = digest of the expected dump Spelling groups also use legacy ContentId spellings that migrate (Image / MeshId / TextureID ...) next to explicit Content values incl. an empty uri; float pools hold +-999999999 (what rbx_dom_lua writes for math.huge); string pools hold the asset-URL spellings (http://www.roblox.com/asset/?id=N, rbxassetid://N ...). Unknown property names include the empty string and blank ones; OptionalCFrame values include Some(identity at the origin); EnumItem type names include the qualified spellings (Enum.Material ...); strings include DEL and C1 controls.'),
     'floor': {'quick': 3000, 'thorough': 100000},
     'assumptions': ['generator reach (see coverage.observed)', 'oracle in harness/src/expect.rs + dbwalk.rs (independent walk of rbx_reflection types)',
                     'rotation bases derived from docs/binary.md table (harness/src/rot.rs)'],
@@ -176,7 +176,7 @@ PLANS['C04'] = {
              'per-chunk compression, chunk order, class ids, referent numbering, PRNT row order, META/unknown chunks, service-format INST chunks, '
              'CFrame id vs full matrix; plus PROP chunks without type byte / with unknown type ids, narrower numerics for Int64/Float64 properties, '
              'and one file per Int64/Float64 descriptor of the database (exhaustive); rbx_binary::from_reader must return exactly the DOM described; '
-             'non-trivial = >=2 instances; distinct = hash of the file The SSTR hash field carries the real MD5, zeros, one placeholder for every entry, random values or equal values for pairs of entries (the document says readers do not use it). The legacy-only files built from the C15 cases also come with a PROP chunk for the migration TARGET that must be skipped (ends after its name / unknown type id), before and after the legacy chunk.'),
+             'non-trivial = >=2 instances; distinct = hash of the file The SSTR hash field carries the real MD5, zeros, one placeholder for every entry, random values or equal values for pairs of entries (the document says readers do not use it). The legacy-only files built from the C15 cases also come with a PROP chunk for the migration TARGET that must be skipped (ends after its name / unknown type id), before and after the legacy chunk. One file in seven declares a class with ZERO instances, with PROP chunks of zero values.'),
     'floor': {'quick': 1000, 'thorough': 50000},
     'assumptions': ['refbin.py encoder + errata E1/E2 resolutions (DESIGN.md 2.4)', 'harness oracle for the logical DOMs'],
     'run': _c04,
@@ -225,7 +225,7 @@ def _domops(pid):
 _DOM_RULE = ('histories of insert / destroy / transfer_within / transfer / clone_within / clone_into_external / clone_multiple_into_external over 1-3 real WeakDoms, '
              'arguments drawn within the documented preconditions (moving an instance under its own descendant is excluded: no tree can represent it; the list given to clone_multiple_into_external may repeat an '
              'instance or name an instance together with a descendant - nothing documented forbids it - and then any of the copies counts as the corresponding copy of a Ref target); '
-             'nodes carry 0-2 outward Ref properties, a self Ref, dangling Refs, pooled UniqueIds; one inserted builder in six is created on a freshly started thread, through any of the public constructors (new / with_property_capacity / empty + with_class / set_class); builders are also left unnamed (new(class) names the instance after that class), re-classed after new (with_class changes the class only), made by empty() or named by set_name; one node in six carries a Bool property named Archivable (cloning copies it like anything else); ids are compared field by field by the monitor (== and Hash of the type are code under test) and the pool holds ids that share one negative random part; half of the random histories MIRROR referents: all DOM roots are built with one chosen referent and one inserted subtree root in four gets the referent of a node of another DOM (a Ref designates whoever holds its value in the DOM at hand); one history in forty opens with a size scenario (two folders of 65-130 children joined by 65-130 distinct Refs, cloned within and across DOMs; or 460 id-carrying children, a parentless clone and a mass destroy); now and then a DOM goes through '
+             'nodes carry 0-2 outward Ref properties, a self Ref, dangling Refs, pooled UniqueIds; one inserted builder in six is created on a freshly started thread, through any of the public constructors (new / with_property_capacity / empty + with_class / set_class); builders are also left unnamed (new(class) names the instance after that class), re-classed after new (with_class changes the class only), made by empty() or named by set_name; one node in six carries a Bool property named Archivable (cloning copies it like anything else); ids are compared field by field by the monitor (== and Hash of the type are code under test) and the pool holds ids that share one negative random part; WeakDom::reserve is called on live DOMs (a capacity hint: nothing observable may change); one fixed scenario per run uses a ROOTLESS DOM (WeakDom::default) as clone and transfer destination; half of the random histories MIRROR referents: all DOM roots are built with one chosen referent and one inserted subtree root in four gets the referent of a node of another DOM (a Ref designates whoever holds its value in the DOM at hand); one history in forty opens with a size scenario (two folders of 65-130 children joined by 65-130 distinct Refs, cloned within and across DOMs; or 460 id-carrying children, a parentless clone and a mass destroy); now and then a DOM goes through '
              'into_raw + from_raw + reserve (nothing observable may change; the rebuilt id bookkeeping is checked through the hook); '
              'random histories of 20-400 operations (few live nodes, many operations) plus the exhaustive enumeration of every history in the small scopes '
              'listed under exhaustive_scopes (all valid argument choices at every step); after EVERY step each DOM is walked through the public API and compared '
@@ -293,7 +293,7 @@ PLANS['C18'] = {
              'EVERY schedule of every program set in the scopes under exhaustive_scopes is executed (DFS over release choices, replayable from the choice string); '
              'oracle at every quiescent point: handle bytes, ==/Hash, all live handles of equal content share one buffer address, no deadlock, table back to its initial size after all drops; '
              'plus a 16-thread uncontrolled stress run with jitter injected at the hooks and the same oracle at barriers, ending with phases whose contents never come back, so that an entry left behind cannot be healed by a later new(): unique contents, a sliding alphabet shared by all threads, rendezvous drops (pairs of threads '
-             'drop the last two handles of a unique string at the same instant) and ping-pong (the two threads of a pair run new()+drop of one content three times in step) before the final table-size check; handles also end by being overwritten in place (Clone::clone_from directly and through Vec / Option, assignment, mem::replace, Option::take); '
+             'drop the last two handles of a unique string at the same instant) and ping-pong (the two threads of a pair run new()+drop of one content three times in step) before the final table-size check; a released thread that makes no progress for 45 s while all others are parked is reported as a deadlock, and a side thread watches the uncontrolled phases for 120 s without a single operation; handles also end by being overwritten in place (Clone::clone_from directly and through Vec / Option, assignment, mem::replace, Option::take); '
              'non-trivial = schedule with >=2 scheduling decisions; distinct = (program set, choice string)'),
     'floor': {'quick': 20000, 'thorough': 300000},
     'exhaustive': {},
@@ -422,7 +422,7 @@ PLANS['C13'] = {
              'carry blobs of every length 0..80 and hostile contents); '
              'fault enumeration: every strict prefix of each valid base file must be an error; every mutated/valid input is re-read through 1-byte, short-read and Interrupted readers and must give the same result; '
              'a sink failing at every output offset must make the writers return Err (or identical bytes when only interrupted). '
-             'Oracles: outcome in {Ok, Err}, largest single allocation <= max(16 MiB, 1024 x input), no watchdog timeout; non-trivial = every input; distinct = hash of the input The structured corpus also holds XML documents with every child-element vocabulary docs/xml.md mentions for composite values (current, historical binary / hash, unknown) in typed positions, each with all of its byte prefixes. After three confirmed hangs further timeouts are counted without the 3x re-run and a shard stops after five of them. Zstandard frames built by hand whose forged content size AGREES with the forged uncompressed length of the chunk header (64 MiB, 1 GiB, 3 GiB, 8-byte field) are part of the structured corpus.'),
+             'Oracles: outcome in {Ok, Err}, largest single allocation <= max(16 MiB, 1024 x input), no watchdog timeout; non-trivial = every input; distinct = hash of the input The structured corpus also holds XML documents with every child-element vocabulary docs/xml.md mentions for composite values (current, historical binary / hash, unknown) in typed positions, each with all of its byte prefixes. After three confirmed hangs further timeouts are counted without the 3x re-run and a shard stops after five of them. Zstandard frames built by hand whose forged content size AGREES with the forged uncompressed length of the chunk header (64 MiB, 1 GiB, 3 GiB, 8-byte field) are part of the structured corpus. XML documents of the structured corpus are decoded under all four property behaviours (ReadUnknown, ErrorOnUnknown, IgnoreUnknown, NoReflection) and include properties the database knows but never serializes, unknown properties and unknown classes.'),
     'floor': {'quick': 20000, 'thorough': 400000},
     'profiles': {'quick': [], 'thorough': ['dbg']},
     'assumptions': ['the worker runs each case on an 8 MiB stack', 'CPU/hang: 30 s wall-clock watchdog per case whose firing is reported as unconfirmed (inconclusive note), not as a violation'],
@@ -441,7 +441,7 @@ PLANS['C08'] = {
              'random spelling (canonical / alias / legacy migrating: Size|size, Color|Color3uint8|BrickColor|brickColor, Font|FontFace, IgnoreGuiInset|ScreenInsets, Image|ImageContent, MeshId|MeshContent ...); '
              'every instance is first round-tripped alone, then the group in ALL n! sibling orders (n<=4; 24 random orders above): every order must serialize, every instance must show exactly what it shows alone, '
              'gaps must hold the database default of the class (independent walk) or, if there is none, never a donor value; outcome classes must not depend on order; '
-             'non-trivial = group using >=2 distinct spellings; distinct = digest of the group description Service classes (Lighting, Workspace, SoundService) are in the class pool: two copies of a service obey the same column rules.'),
+             'non-trivial = group using >=2 distinct spellings; distinct = digest of the group description Service classes (Lighting, Workspace, SoundService) are in the class pool: two copies of a service obey the same column rules. One group member in six also carries a property the database knows but never serializes.'),
     'floor': {'quick': 2000, 'thorough': 100000},
     'exhaustive': {},
     'assumptions': ['differential oracle: alone vs in-group (so a defect that changes both identically is C01/C15 territory)', 'database defaults via dbwalk.rs'],
@@ -522,7 +522,7 @@ PLANS['C16'] = {
              'with the C01/C02 oracle; for EACH class a donor instance sets every default-carrying property to another value and a bare instance next to it must come back with the default visible on that class (nearest class wins); then EACH (class, own descriptor name) goes once through both writers and, where written, both readers (lookup paths must not panic; own output must be readable); '
              'the Lua-side copy rbx_dom_lua/src/database.json is cross-checked (version, classes, property sets, kinds); a modified copy of the database (one more serializes-as pair with a default) is handed to both codecs '
              'through their public options, and the bundled database is sent through the encodings rbx_reflector writes (MessagePack, human-readable MessagePack; JSON written and counted) and back with every class / descriptor / default / enum compared; the modified copy goes '
-             'in both chain orders x all compression types / property behaviours and must be the database actually used (wire name, name on the way back, default, identical output for both orders). non-trivial = each class default instance per format; distinct = class x format Hoisted targets: for each migrating property a copy of the database in which the migration target (with its aliases and default) is declared by the superclass instead - coherent, as a regenerated database may be - must make both codecs produce what the bundled database produces. Added migration: a copy of the database in which Folder gains a legacy ContentId property migrating to a new Content property (both name orders) - legacy alone migrates, an explicit new value wins, in both codecs and insertion orders. Studio-style ContentId: every ContentId descriptor is read from a Content element holding null / url and must come back with the declared type.'),
+             'in both chain orders x all compression types / property behaviours and must be the database actually used (wire name, name on the way back, default, identical output for both orders). non-trivial = each class default instance per format; distinct = class x format Hoisted targets: for each migrating property a copy of the database in which the migration target (with its aliases and default) is declared by the superclass instead - coherent, as a regenerated database may be - must make both codecs produce what the bundled database produces. Added migration: a copy of the database in which Folder gains a legacy ContentId property migrating to a new Content property (both name orders) - legacy alone migrates, an explicit new value wins, in both codecs and insertion orders. Studio-style ContentId: every ContentId descriptor is read from a Content element holding null / url and must come back with the declared type. The added-migration database also has an alias of the legacy property (alone, and next to the explicit value).'),
     'floor': {'quick': 15000, 'thorough': 15000},
     'exhaustive': {'quick': True, 'thorough': True},
     'assumptions': ['the exhaustive walk covers the bundled database; a regenerated database is covered by re-running the same check (the codecs\' handling of a caller-supplied database is exercised with one modified copy)', 'two canonical descriptors sharing a wire name are reported as informational (see known findings of C01/C03)'],
@@ -589,7 +589,7 @@ PLANS['C15'] = {
              'path w-bin / w-xml: DOM with the legacy name through the real writer and reader; path r-bin / r-xml: files that contain the legacy PROP chunk / element (built by refbin.py / plain text, both '
              'chunk / element orders, and once more behind another class that carries the target property explicitly) through the real reader. On the write paths the instance under test stands in four positions of one file (alone; first and second child of a same-class parent that carries both '
              'spellings; first child of a parent carrying only the legacy one) and must decode identically in all of them. All four paths must produce the same new canonical property with equal value, never the legacy name, the explicit value must win, and no path may fail. '
-             'non-trivial = every case; distinct = (class, legacy property, value, presence) Each case also runs with the explicit new value EXACTLY EQUAL to the database default of the new property. The added-migration database leg of C16 runs here too (a migration the bundled database does not know).'),
+             'non-trivial = every case; distinct = (class, legacy property, value, presence) Each case also runs with the explicit new value EXACTLY EQUAL to the database default of the new property. The added-migration database leg of C16 runs here too (a migration the bundled database does not know). Read paths also get the two legacy spellings of BasePart colour around the explicit value in all six element / chunk orders.'),
     'floor': {'quick': 300, 'thorough': 3000},
     'exhaustive': {'thorough': True},
     'assumptions': ['the four paths are compared with each other (differential): a wrong mapping made identically on all four is not visible here'],
